@@ -288,10 +288,35 @@ _REV = re.compile(r'([A-Za-z_][\w.]*)\[::-1\]')
 _LEN_POS = re.compile(r'^len\(([A-Za-z_][\w.]*)\) (?:> 0|!= 0|>= 1)$')
 
 
+_NEG = {ast.Eq: ast.NotEq, ast.NotEq: ast.Eq, ast.Lt: ast.GtE, ast.GtE: ast.Lt, ast.Gt: ast.LtE,
+        ast.LtE: ast.Gt, ast.Is: ast.IsNot, ast.IsNot: ast.Is, ast.In: ast.NotIn, ast.NotIn: ast.In}
+
+
+def _nnf(e, neg=False):
+  """Negation normal form of a boolean expression (De Morgan, negated comparisons), as an AST."""
+  if isinstance(e, ast.UnaryOp) and isinstance(e.op, ast.Not):
+    return _nnf(e.operand, not neg)
+  if isinstance(e, ast.BoolOp):
+    op = e.op
+    if neg:
+      op = ast.Or() if isinstance(e.op, ast.And) else ast.And()
+    return ast.BoolOp(op=op, values=[_nnf(v, neg) for v in e.values])
+  if neg and isinstance(e, ast.Compare) and len(e.ops) == 1 and type(e.ops[0]) in _NEG:
+    return ast.Compare(left=e.left, ops=[_NEG[type(e.ops[0])]()], comparators=e.comparators)
+  return ast.UnaryOp(op=ast.Not(), operand=e) if neg else e
+
+
 def _loop_key(text):
   """Normal form of a loop header used to find its invariant: spellings that denote the same
-  iteration are identified (x[::-1] / reversed(x); `while xs` / `while len(xs) > 0`)."""
+  iteration are identified (x[::-1] / reversed(x); `while xs` / `while len(xs) > 0`; De Morgan
+  and negated comparisons in a while condition)."""
   text = _REV.sub(r'reversed(\1)', text)
+  try:
+    tree = ast.parse(text, mode='eval').body
+    if isinstance(tree, (ast.BoolOp, ast.UnaryOp, ast.Compare)):
+      text = ast.unparse(ast.fix_missing_locations(_nnf(tree)))
+  except SyntaxError:
+    pass
   m = _LEN_POS.match(text)
   if m:
     text = m.group(1)
@@ -786,12 +811,18 @@ class Executor:
   def narrow(self, test, truth):
     """After `x is None` / `x is not None` on a local optional was decided, the local is
     known not to be None on the corresponding branch: it is replaced by its inner value."""
-    if isinstance(test, ast.Compare) and len(test.ops) == 1 and \
-        isinstance(test.left, ast.Name) and isinstance(test.comparators[0], ast.Constant) and \
-        test.comparators[0].value is None:
+    if isinstance(test, ast.UnaryOp) and isinstance(test.op, ast.Not):
+      return self.narrow(test.operand, not truth)
+    if isinstance(test, ast.Compare) and len(test.ops) == 1:
+      left, right = test.left, test.comparators[0]
+      if isinstance(left, ast.Constant) and left.value is None and isinstance(right, ast.Name):
+        left, right = right, left                     # `None is x`
+      if not (isinstance(left, ast.Name) and isinstance(right, ast.Constant) and
+              right.value is None):
+        return
       not_none = (isinstance(test.ops[0], ast.IsNot) and truth) or \
                  (isinstance(test.ops[0], ast.Is) and not truth)
-      name = test.left.id
+      name = left.id
       v = self.frame.env.get(name)
       if not_none and isinstance(v, VOpt) and name not in self.contract.local_kinds:
         self.frame.env[name] = v.inner
@@ -1890,7 +1921,12 @@ class Executor:
           if self.contract.val_ops_may_raise:
             self.opaque_op_may_raise('re.match', node)
           a0 = coerce(a0, KStr)
-        return VBool(self.world.re_match(fn.payload, a0.e))
+        # RE.match(s) is None or a (truthy) match object: an optional, so that both
+        # `if not RE.match(s)` and `if RE.match(s) is None` mean what they mean in Python
+        pred = self.world.re_match(fn.payload, a0.e)
+        mo = sym.ufun('re_match_object$' + sym.san(fn.payload), sym.Str, sym.Val)(a0.e)
+        self.path.assume(z3.Implies(pred, sym.val_truthy(mo)))
+        return sym.VOpt(KOpt(KVal), z3.Not(pred), VObj(mo))
       if fn.what == 'type':
         return self.world.call_builtin(self, fn.payload, args, kwargs, node)
     if isinstance(fn, VObj):
